@@ -70,5 +70,6 @@ package bcl
 //@   ensures [C11,C12] waits_for_both_goroutines: g.ev_recv_rerr == 1 && g.ev_recv_perr == 1
 //@   ensures [C11] read_error_preferred: result1 == ((g.ev_val_rerr != nil) ? g.ev_val_rerr : g.ev_val_perr)
 //@   ensures [C11] input_left_to_the_reader: g.closes == 0 && g.reads == 0
+//@   promise [C07,C20,C11] a_chunk_is_exactly_the_bytes_just_read: at inpc: len($msg) == g.rd_n && (forall i int :: 0 <= i && i < g.rd_n ==> $msg[i] == b[i])
 //@   promise [C11,C12,C03] program_handed_over_with_the_verdict: at perr: prog != nil && ($msg == nil ==> dumpable(prog))
 //@   ensures [C11,C03] complete_program_when_ok: result0 != nil && (result1 == nil ==> dumpable(result0))
